@@ -15,9 +15,13 @@ No shape of main(), parse_args() or do_minify() is assumed: helpers, early retur
 ordered trace of effects and how the run ended; the properties (C13, C14, C15) compare it with the documented behaviour of the tool.
 """
 import argparse
+import ast
 import os
 
-from .absint import Closure, Interp, Obj, TOP, _Exit, _Raise
+import io
+import tokenize
+
+from .absint import Closure, Interp, Obj, OneShot, TOP, _Exit, _Raise
 from .model import AnalysisError
 
 MAIN = 'python_minifier.__main__'
@@ -227,6 +231,7 @@ def run(model, sc, entry='main', max_paths=8):
 
     def h_minify(I, e, args, kw, env):
         source = args[0] if args else kw.get('source')
+        kw = {k: (v.take() if isinstance(v, OneShot) else v) for k, v in kw.items()}   # minify() iterates its list arguments once
         trace.append(('minify', source, dict(kw), tuple(args[1:])))
         if not isinstance(source, (bytes, str)):
             raise AnalysisError('UNDECIDED: minify() is called with a source the scenario does not determine: %r' % (source,))
@@ -237,7 +242,27 @@ def run(model, sc, entry='main', max_paths=8):
         trace.append(('minify-returned', source, val))
         return val
 
+    def h_detect_encoding(I, e, args, kw, env):
+        # tokenize.detect_encoding(io.BytesIO(<bytes>).readline): the bytes are whatever the innermost determined bytes-valued argument is
+        data = None
+        for sub in ast.walk(e):
+            if isinstance(sub, ast.Call) and sub is not e:
+                for a in sub.args:
+                    try:
+                        v = I.ev(a, env)
+                    except Exception:
+                        continue
+                    if isinstance(v, bytes):
+                        data = v
+        if data is None:
+            return TOP
+        try:
+            return tokenize.detect_encoding(io.BytesIO(data).readline)
+        except SyntaxError:
+            raise _Raise('SyntaxError')
+
     hooks = {
+        'tokenize.detect_encoding': h_detect_encoding, 'detect_encoding': h_detect_encoding,
         'argparse.ArgumentParser': h_parser, 'ArgumentParser': h_parser,
         '.add_mutually_exclusive_group': h_group('add_mutually_exclusive_group'), '.add_argument_group': h_group('add_argument_group'),
         '.add_argument': h_add_argument, '.parse_args': h_parse_args, '.error': h_error,
